@@ -173,6 +173,68 @@ def eqsync(rl: int, sd: int, on: int, tk: int, sc: int, x: int, y: int, x2: int,
     return finish(True, True)
 
 
+JSON_PARTS = [(f, w) for f in hlib.JSON_FAMILIES for w in WHICH]
+
+
+def faultread(tk: int, opi: int, k: int, rd: int, x: int, y: int, v: int) -> bool:
+    """A mutation whose save failed (I/O error at file-system operation #k of the call) left
+    the backend unchanged or changed: whatever it holds, the next reads reflect IT, not the
+    in-memory state of the failed call.
+    post: _
+    """
+    env = get_env().reset()
+    fam, which = JSON_PARTS[hlib.PART % len(JSON_PARTS)]
+    tkind = WHICH[(hlib.PART // len(JSON_PARTS)) % 2]
+    if tk != 0:
+        return finish(False, True)
+    op = pick(ops.mutators(tkind), opi)
+    k = pick([0, 1, 2, 3, 4, 5, 6, 7], k)
+    how = pick(["call", "child-call", "eq"] if hlib.TIER != "thorough" else ["call", "child-call", "getitem", "len", "eq"], rd)
+    if op is None or k is None or how is None:
+        return finish(False, True)
+    T = {"p": x} if tkind == "dict" else [x, y]
+    doc = wrap(which, T, 5)
+    fam.write(env, "r", doc)
+    root = fam.make(env, which, "r")
+    pos = "a" if which == "dict" else 0
+    child = root[pos]
+    root()
+    env.fs.fault_at = env.fs.ops + k
+    try:
+        op.fn(child, ops.A(v=v, w=v, i=0, j=1))
+        raised = None
+    except hlib.Crash:
+        raise
+    except Exception as e:
+        raised = e
+    hit = env.fs.fault_at < env.fs.ops
+    env.fs.fault_at = None
+    if not hit or not isinstance(raised, OSError):
+        return finish(False, True)
+    now = fam.read(env, "r")
+    if now is hlib.MISSING or now is hlib.CORRUPT:
+        return finish(False, True)
+    case(fam.cls(which).__name__, tkind, op.name, k, how)
+    try:
+        if how == "call":
+            got, want = root(), now
+        elif how == "child-call":
+            got, want = child(), now[pos]
+        elif how == "getitem":
+            got, want = plain(root[pos]), now[pos]
+        elif how == "len":
+            got, want = len(child), len(now[pos])
+        else:
+            got, want = (root == copy_tree(now)), True
+    except hlib.Crash:
+        raise
+    except Exception as e:
+        return finish(True, fail(lambda: f"{fam.cls(which).__name__}: {op.name} failed with {raised!r}; the following {how} raised {e!r}"))
+    if not eq_plain(got, want):
+        return finish(True, fail(lambda: f"{fam.cls(which).__name__}: {op.name} on the nested {tkind} failed with {raised!r} (file-system operation #{k}); the backend holds {now!r} but the following {how} gives {got!r}"))
+    return finish(True, True)
+
+
 ALL_TOKENS = ["A.read", "A.write", "Ac.write", "out.same", "out.other", "B.write", "Ac.read", "B.reset-same"]
 
 
@@ -257,12 +319,14 @@ def plan(tier):
             {"fn": "kinds", "nparts": len(PARTS), "timeout": 300},
             {"fn": "reads", "nparts": 8, "timeout": 300},
             {"fn": "eqsync", "nparts": 8, "timeout": 300},
+            {"fn": "faultread", "nparts": 2 * len(JSON_PARTS), "timeout": 300},
             {"fn": "hist", "nparts": 4 * 6, "timeout": 300},
         ]
     return [
         {"fn": "kinds", "nparts": len(PARTS), "timeout": 1500},
         {"fn": "reads", "nparts": len(PARTS), "timeout": 1500},
         {"fn": "eqsync", "nparts": len(PARTS), "timeout": 1500},
+        {"fn": "faultread", "nparts": 2 * len(JSON_PARTS), "timeout": 1500},
         {"fn": "hist", "nparts": len(PARTS) * len(ALL_TOKENS), "timeout": 1500},
     ]
 
@@ -276,6 +340,9 @@ def smoke(tier):
     for part in range(8):
         for rd in range(18):
             out.append(("reads", (part % 2, rd, rd % 2, 0, 1, 2, 3, 5, 6), part, 8))
+    for part in range(2 * len(JSON_PARTS)):
+        for k in range(2, 8):
+            out.append(("faultread", (0, (k * 5 + part) % 17, k, k % 3, 1, 2, 3), part, 2 * len(JSON_PARTS)))
     ne = 8 if tier == "quick" else len(PARTS)
     for part in range(ne):
         for rl in range(4):
